@@ -26,7 +26,8 @@
      cancel c          cancel consumer c's context                                   *)
 EXTENDS EventLog, Json
 
-CONSTANTS L,          \* number of scenario steps
+CONSTANTS L,          \* largest number of scenario steps
+          Lmin,       \* scenarios of Lmin..L steps are emitted
           Extras      \* BOOLEAN: also resub / reunsub / flap and free-mode calls
 
 VARIABLES mode, released, flap2, scn, nx
@@ -82,6 +83,6 @@ Env ==
 GNext == (Urgent /\ Internal) \/ Env
 GSpec == GInit /\ [][GNext]_<<vars, gvars>>
 
-Emit == (Len(scn) = L /\ ~Urgent) =>
+Emit == (Len(scn) >= Lmin /\ Len(scn) <= L /\ ~Urgent) =>
           PrintT(<<"SCN", ToJson([handlerOf |-> HandlerOf, steps |-> scn])>>)
 =============================================================================
